@@ -244,11 +244,9 @@ class Model:
         elif how == 'raise_status':
             code = 3404
         else:
-            code = cfg['error_close_code'] if cfg['error_close_code'] != 999 else 3011
+            code = cfg['error_close_code'] if valid_close_code(cfg['error_close_code']) else 3011
             if cfg['handler'] == 'custom_close':
                 code = 3999
-            elif cfg['handler'] == 'custom_noclose':
-                code = cfg['error_close_code'] if cfg['error_close_code'] != 999 else 3011
         self.events.append({'type': 'websocket.close', 'code': code})
         self.st = 'closed'
 
@@ -473,6 +471,63 @@ def special_sessions(cfg, rep):
             rep.violation({'kind': kind, 'where': 'middleware'}, {'cfg': cfg, 'special': 'mw'}, 'cfg=%r: %s' % (cfg, why))
 
 
+CLOSE_CODES = [999, 1000, 1001, 1003, 1004, 1005, 1006, 1007, 1011, 1014, 1015, 1016, 1998, 1999, 2000, 2999, 3000, 3999, 4000, 4999]
+
+
+def valid_close_code(c):
+    # RFC 6455 7.4 + the ASGI servers' reading: >= 1000, 1004-1006 and 1015-1999 are reserved
+    return c >= 1000 and not (1004 <= c <= 1006) and not (1015 <= c <= 1999)
+
+
+def close_code_sessions(cfg, rep):
+    """[accept, close(code)] for every boundary code, and an unexpected exception with error_close_code=code."""
+    for code in CLOSE_CODES:
+        holder = {}
+        app = build(cfg, holder)
+        box = {}
+
+        class Res:
+            async def on_websocket(self, req, ws):
+                await ws.accept()
+                try:
+                    await ws.close(code)
+                    box['out'] = 'ok'
+                except ValueError:
+                    box['out'] = 'ValueError'
+                except Exception as e:     # noqa
+                    box['out'] = type(e).__name__
+        app.add_route('/cc', Res())
+        finds, env, _ = run_session(app, holder, cfg, (), 't', 1001, path='/cc')
+        got = [{k: v for k, v in ev.items() if k != 'reason'} for ev, _ in env.sent]
+        rep.trace()
+        rep.trans(len(env.sent))
+        if valid_close_code(code):
+            want_out, want = 'ok', [{'type': 'websocket.accept'}, {'type': 'websocket.close', 'code': code}]
+        else:
+            # the documented ValueError; the framework's own final close then ends the session normally
+            want_out, want = 'ValueError', [{'type': 'websocket.accept'}, {'type': 'websocket.close', 'code': 1000}]
+        if box.get('out') != want_out or got != want:
+            finds.append(('close-code-validation', 'close(%d): expected %s and events %r; got %s and %r' % (code, want_out, want, box.get('out'), got)))
+        for kind, why in finds:
+            if kind in ('event-stream', 'no-final-close'):
+                continue
+            rep.violation({'kind': kind, 'where': 'close-code', 'valid': valid_close_code(code)},
+                          {'cfg': cfg, 'close_code': code, 'special': 'cc'}, 'cfg=%r close(%d): %s' % (cfg, code, why))
+        # unexpected exception -> configured error_close_code, 3011 when that one is not usable
+        cfg2 = dict(cfg, error_close_code=code)
+        holder2 = {}
+        app2 = build(cfg2, holder2)
+        finds, env, _ = run_session(app2, holder2, cfg2, ('accept', 'raise_value'), 't', 1001)
+        got = [{k: v for k, v in ev.items() if k != 'reason'} for ev, _ in env.sent]
+        rep.trace()
+        want = [{'type': 'websocket.accept'}, {'type': 'websocket.close', 'code': code if valid_close_code(code) else 3011}]
+        if got != want and not any(k == 'event-stream' for k, _ in finds):
+            finds.append(('error-close-code', 'error_close_code=%d: expected %r, got %r' % (code, want, got)))
+        for kind, why in finds:
+            rep.violation({'kind': kind if kind != 'event-stream' else 'error-close-code', 'where': 'error-close-code', 'valid': valid_close_code(code)},
+                          {'cfg': cfg2, 'close_code': code, 'special': 'ecc'}, 'cfg=%r error_close_code=%d: %s' % (cfg, code, why))
+
+
 def run_batch(job, rep):
     cfg, scripts, clients, faults = job
     holder = {}
@@ -569,6 +624,8 @@ def plan(tier, seed):
 def work(job, rep):
     if job[0] == 'special':
         special_sessions(job[1], rep)
+    elif job[0] == 'codes':
+        close_code_sessions(job[1], rep)
     else:
         run_batch(job, rep)
 
@@ -577,21 +634,25 @@ def check(rep):
     jobs, specials = plan(rep.tier, rep.seed)
     rep.bounds = {'responder_ops': OPS, 'script_length<=': 3 if rep.tier == 'quick' else '4 over all 17 operations (one client script), 4 over a 12-op core with more clients',
                   'clients': sorted(CLIENTS), 'spec_versions': ['2.0', '2.3'] if rep.tier == 'quick' else ['2.0', '2.1', '2.3', '2.4'],
-                  'queue_sizes': [0, 2] if rep.tier == 'quick' else [0, 1, 2], 'send_faults': 'one failing send() at every call index, 4 error kinds',
+                  'queue_sizes': [0, 2] if rep.tier == 'quick' else [0, 1, 2], 'send_faults': 'one failing send() at every call index, 4 error kinds', 'close_codes': CLOSE_CODES,
                   'batches': len(jobs), 'special_sessions': len(specials)}
     rep.rule = ('every responder script x client script x configuration in the bound is one session on a real falcon.asgi.App; state = one session; '
                 'transition = one scripted operation or outgoing event; non-trivial = sessions in which an operation raised or more than one event was sent')
     rep.assumptions = ['default deterministic schedule (exhaustive scheduling of the receive pump is C18)',
                        'binary media payloads are not judged (msgpack is not installed in this image)',
                        'under an injected send() failure only legality, termination and error classes are judged']
-    par.run_shards(work, [('special', c) for c in specials] + jobs, rep)
+    base = {'spec': '2.3', 'queue': 2, 'mw': 'none', 'handler': 'default', 'error_close_code': 1011}
+    codes = [('codes', dict(base, spec=sp, queue=q)) for sp in ('2.0', '2.3') for q in (0, 2)]
+    par.run_shards(work, [('special', c) for c in specials] + codes + jobs, rep)
 
 
 def replay(rec):
     from mc.core.report import Report
     rep = Report('C17')
     cfg = rec['cfg']
-    if rec.get('special'):
+    if rec.get('special') in ('cc', 'ecc'):
+        close_code_sessions({k: v for k, v in cfg.items()} if rec['special'] == 'cc' else dict(cfg, error_close_code=1011), rep)
+    elif rec.get('special'):
         special_sessions(cfg, rep)
     else:
         fault = tuple(rec['fault']) if rec.get('fault') else None
